@@ -84,6 +84,21 @@ void hook(const char* name) {
    t.waiting = false;
 }
 
+/// Wall-clock limits must not turn machine load into a failure of the property: they grow with the load
+/// (1-minute load average per hardware thread, never below 1).
+inline double loadFactor() {
+   double l[1] = {0.0};
+   if (getloadavg(l, 1) != 1) return 1.0;
+   unsigned hc = std::thread::hardware_concurrency();
+   double f = l[0] / (hc ? hc : 1u);
+   return f < 1.0 ? 1.0 : f;
+}
+/// how long a released thread may take to reach its next sync point before the run is declared stuck
+inline std::chrono::seconds stuckLimit() {
+   double s = 20.0 * loadFactor();
+   return std::chrono::seconds(static_cast<long>(s > 600.0 ? 600.0 : s));
+}
+
 [[noreturn]] void stuck(const std::string& what) {
    std::printf("!! stuck: %s\n", what.c_str());
    std::fflush(stdout);
@@ -97,7 +112,7 @@ void reset() {
 }
 void waitArrive(int t) {
    std::unique_lock<std::mutex> lk(m);
-   if (!cv.wait_for(lk, std::chrono::seconds(20), [&] { return th[t].waiting || th[t].done; }))
+   if (!cv.wait_for(lk, stuckLimit(), [&] { return th[t].waiting || th[t].done; }))
       stuck("thread " + std::to_string(t) + " never reached a sync point");
 }
 /// release thread t and wait until it is at its next sync point or has finished
@@ -106,7 +121,7 @@ void grant(int t) {
    Th& x = th[t];
    x.go = true;
    cv.notify_all();
-   if (!cv.wait_for(lk, std::chrono::seconds(20), [&] { return (x.waiting && !x.go) || x.done; }))
+   if (!cv.wait_for(lk, stuckLimit(), [&] { return (x.waiting && !x.go) || x.done; }))
       stuck("thread " + std::to_string(t) + " released from '" + x.at + "' did not reach another sync point");
 }
 /// release thread t, expect it NOT to arrive anywhere within `ms`; true when it stayed away
@@ -313,33 +328,61 @@ static std::string runManaged(int nobs, const std::vector<int>& sched) {
 
 // ---------------------------------------------------------------------------- TSan soak (second binary)
 
-static std::string runSoak(const std::string& line) {
-   const char* bin = std::getenv("CELMA_CONC_TSAN");
-   std::string b = bin ? bin : "./concurrency_tsan";
-   if (access(b.c_str(), X_OK) != 0) return "bad-op soak binary " + b + " missing";
-   // a mutated tree may corrupt the heap and hang: bounded run time
-   std::string cmd = "printf '%s\\n' '" + line + "' | timeout -s KILL 60 " + b + " 2>soak_tsan.log";
+/// one run of the un-hooked TSan binary on `line`, killed after `limit` seconds; exit code in `code`
+static std::string soakOnce(const std::string& b, const std::string& line, long limit, int& code, std::string& summary) {
+   std::string cmd = "printf '%s\\n' '" + line + "' | timeout -s KILL " + std::to_string(limit) + " " + b + " 2>soak_tsan.log";
    FILE* p = popen(cmd.c_str(), "r");
-   if (!p) return "bad-op popen";
+   if (!p) { code = -2; return ""; }
    char buf[1024];
    std::string out;
    while (std::fgets(buf, sizeof buf, p)) out += buf;
    int st = pclose(p);
    while (!out.empty() && (out.back() == '\n' || out.back() == '\r')) out.pop_back();
    if (out.find('\n') != std::string::npos) out = out.substr(0, out.find('\n'));
-   int code = WIFEXITED(st) ? WEXITSTATUS(st) : -1;
-   if (code == 0) return out.empty() ? "bad-op soak printed nothing" : out;
-   std::string summary;
-   if (FILE* f = std::fopen("soak_tsan.log", "r")) {
-      while (std::fgets(buf, sizeof buf, f)) {
-         std::string l = buf;
-         if (l.find("SUMMARY:") != std::string::npos) { summary = l; break; }
-         if (summary.empty() && l.find("WARNING: ThreadSanitizer") != std::string::npos) summary = l;
+   code = WIFEXITED(st) ? WEXITSTATUS(st) : -1;
+   summary.clear();
+   if (code != 0) {
+      if (FILE* f = std::fopen("soak_tsan.log", "r")) {
+         while (std::fgets(buf, sizeof buf, f)) {
+            std::string l = buf;
+            if (l.find("SUMMARY:") != std::string::npos) { summary = l; break; }
+            if (summary.empty() && l.find("WARNING: ThreadSanitizer") != std::string::npos) summary = l;
+         }
+         std::fclose(f);
       }
-      std::fclose(f);
+      while (!summary.empty() && summary.back() == '\n') summary.pop_back();
    }
-   while (!summary.empty() && summary.back() == '\n') summary.pop_back();
-   if (code == 137 || code == 124) return "!! soak did not finish within 60 s (hang) [" + out + "]";
+   return out;
+}
+
+static std::string runSoak(const std::string& line) {
+   const char* bin = std::getenv("CELMA_CONC_TSAN");
+   std::string b = bin ? bin : "./concurrency_tsan";
+   if (access(b.c_str(), X_OK) != 0) return "bad-op soak binary " + b + " missing";
+   // a mutated tree may corrupt the heap and hang: bounded run time.  The bound grows with the machine load, and a
+   // soak that was killed is run once more (this process does nothing else meanwhile) with a ten times longer bound:
+   // only a hang that shows twice is a failure; a slow machine is not.
+   const double lf = sch::loadFactor();
+   const char* base = std::getenv("CELMA_CONC_SOAK_LIMIT");     // seconds, for testing the retry path
+   const double b0 = base ? std::atof(base) : 60.0;
+   const long limit = static_cast<long>(b0 * lf > 900.0 ? 900.0 : (b0 * lf < 1.0 ? 1.0 : b0 * lf));
+   int code = 0;
+   std::string summary;
+   std::string out = soakOnce(b, line, limit, code, summary);
+   if (code == -2) return "bad-op popen";
+   if (code == 137 || code == 124) {
+      const long retry = limit * 10 > 3600 ? 3600 : (limit * 10 < 600 ? 600 : limit * 10);
+      out = soakOnce(b, line, retry, code, summary);
+      if (code == 137 || code == 124)
+         return "!! soak did not finish within " + std::to_string(limit) + " s and, run again, not within " +
+                std::to_string(retry) + " s (hang reproduced twice) [" + out + "]";
+      if (FILE* f = std::fopen("soak_retry.notes", "a")) {
+         std::fprintf(f, "TSan soak `%s` did not finish within %ld s (load factor %.1f) and was killed; run again with a "
+                         "limit of %ld s it finished (exit=%d)\n", line.c_str(), limit, lf, retry, code);
+         std::fclose(f);
+      }
+   }
+   if (code == 0) return out.empty() ? "bad-op soak printed nothing" : out;
    if (out.rfind("!!", 0) == 0) return out;
    return "!! soak exit=" + std::to_string(code) + " " + summary + " [" + out + "]";
 }
